@@ -90,7 +90,18 @@ def class_of(t):
 # P4r / P4s: authenticated, after a completed key RE-exchange started by the
 # raw client / by the server under test (the gate must be the same as in P4)
 SERVER_PHASES = ['P2', 'P3', 'P4', 'P4r', 'P4s']
-MODEL_PHASE = {'P4r': 'P4n', 'P4s': 'P4n'}
+# the model's P3 is "a method's exchange is outstanding"; before the first
+# request and after a FAILURE no handler is installed (P3n)
+MODEL_PHASE = {'P4r': 'P4n', 'P4s': 'P4n', 'P3': 'P3n', 'P3k': 'P3',
+               'P3f': 'P3n', 'P3p': 'P3n', 'P3q': 'P3'}
+# points of the dialogue with real authentication (run_server_auth_case):
+#   P3k keyboard-interactive challenge outstanding, P3f after the FAILURE that
+#   ended a keyboard-interactive attempt, P3p after a password FAILURE, P3q
+#   after a public key query was answered (PK_OK: the handler stays
+#   installed, but none of its messages is defined for the server side)
+AUTH_PHASES = ['P3k', 'P3f', 'P3p', 'P3q']
+# a keyboard-interactive response that would be accepted if it were looked at
+GOOD_RESPONSE = (61, UInt32(1) + String(b'secret'))
 
 
 def run_server_case(phase=None, pkttype=None, body=b'', second=None,
@@ -200,6 +211,131 @@ def run_server_case(phase=None, pkttype=None, body=b'', second=None,
         inject()
     send(90, rawpeer.session_open(chan=5))
     conf = [p for t, p in raw.inbox if t == 91]
+    send(98, UInt32(0) + String(b'exec') + Boolean(True) + String(b'cmd'))
+    out = {'seen': seen, 'log': list(log), 'closed': bool(res.get('closed')),
+           'emitted': list(emitted),
+           'loop_exceptions': [str(c.get('exception') or c.get('message'))
+                               for c in loop.exceptions]}
+    _verif.set_sink(None)
+    try:
+        raw.abort()
+        res['acc'].close()
+        loop.run_until_idle()
+    except BaseException:               # pylint: disable=broad-except
+        pass
+    close_loop(loop)
+    return out
+
+
+def run_server_auth_case(phase=None, pkttype=None, body=b''):
+    """Dialogue with real authentication: keyboard-interactive request ->
+    challenge -> wrong response -> FAILURE -> password (wrong) -> FAILURE ->
+    public key query -> PK_OK -> password (right) -> SUCCESS -> session
+    open, exec; with an optional injected packet at `phase`."""
+    loop = new_loop()
+    log = []
+    res = {}
+    key = asyncssh.generate_private_key('ssh-ed25519')
+
+    class SS(asyncssh.SSHServerSession):
+        def connection_made(self, chan):
+            log.append('session_made')
+
+        def exec_requested(self, command):
+            log.append(('exec', command))
+            return True
+
+    class Srv(asyncssh.SSHServer):
+        def connection_made(self, conn):
+            res['sconn'] = conn
+
+        def connection_lost(self, exc):
+            log.append(('server_lost', type(exc).__name__ if exc else None))
+            res['closed'] = True
+
+        def begin_auth(self, username):
+            log.append(('begin_auth', username))
+            return True
+
+        def kbdint_auth_supported(self):
+            return True
+
+        def get_kbdint_challenge(self, username, lang, submethods):
+            return '', '', '', [('Code:', False)]
+
+        def validate_kbdint_response(self, username, responses):
+            log.append(('kbdint', list(responses)))
+            return list(responses) == ['secret']
+
+        def password_auth_supported(self):
+            return True
+
+        def validate_password(self, username, password):
+            log.append(('password', password))
+            return password == 'pw'
+
+        def public_key_auth_supported(self):
+            return True
+
+        def validate_public_key(self, username, k):
+            return True
+
+        def auth_completed(self):
+            log.append(('auth_completed',
+                        res['sconn'].get_extra_info('username')))
+
+        def session_requested(self):
+            log.append('session_requested')
+            return SS()
+
+    from asyncssh import _verif
+    emitted = []
+
+    def sink(name, f):
+        conn = f.get('conn')
+        if name == 'pkt_out' and conn is not None and conn.is_server() and \
+                f['pkttype'] != 2:
+            emitted.append(f['pkttype'])
+
+    _verif.set_sink(sink)
+
+    async def go():
+        res['acc'] = await asyncssh.listen(
+            '127.0.0.1', 2222, server_factory=Srv,
+            server_host_keys=[hostkey()], encoding=None)
+        res['raw'] = await rawpeer.raw_connect('127.0.0.1', 2222,
+                                               hold_service=True)
+
+    loop.run_until_complete(go())
+    raw = res['raw']
+    loop.run_until_idle()
+    raw.take()
+    seen = []
+
+    def send(t, b):
+        loop.run_callback(raw.raw_send, t, b)
+        for tt, _ in raw.take():
+            if tt not in (2, 80):
+                seen.append(tt)
+
+    def inject(ph):
+        if phase == ph and pkttype is not None:
+            send(pkttype, body)
+
+    send(5, String(b'ssh-userauth'))
+    send(50, rawpeer.userauth_request('u', 'keyboard-interactive',
+                                      String(b''), String(b'')))
+    inject('P3k')
+    send(61, UInt32(1) + String(b'wrong'))
+    inject('P3f')
+    send(50, rawpeer.password_request('u', 'bad'))
+    inject('P3p')
+    send(50, rawpeer.userauth_request(
+        'u', 'publickey', Boolean(False), String(key.algorithm),
+        String(key.public_data)))
+    inject('P3q')
+    send(50, rawpeer.password_request('u', 'pw'))
+    send(90, rawpeer.session_open(chan=5))
     send(98, UInt32(0) + String(b'exec') + Boolean(True) + String(b'cmd'))
     out = {'seen': seen, 'log': list(log), 'closed': bool(res.get('closed')),
            'emitted': list(emitted),
